@@ -25,7 +25,7 @@ class C02(TreeCheck):
         n = 12 if tier == "quick" else 60
         out = []
         for i in range(n):
-            prog, meta = programs.g_crash(rng)
+            prog, meta = programs.g_crash(rng, force_churn=(i % 6 == 1))
             out.append({"program": prog, "config": {"keep_procs": True, "sigchld_ignore": bool(meta.get("sigchld_ignore"))}, "meta": meta})
         return out
 
@@ -60,6 +60,11 @@ class C02(TreeCheck):
                         for dp in explore.points_of(F, role="driver", thr="user", quals=["ProcessPoolExecutor._ensure_executor_running"])[:1]:
                             rules.append(explore.rule(dp, ["sleep", 0.03], hit=0))
                     out.append(({"rules": rules}, {"mode": "K2", "fn": pt["qual"], "act": act[0] + str(act[1])}))
+        if base["meta"].get("churn"):
+            # the manager thread is slowed at every statement of the tree-kill helper: a short-lived child listed by
+            # psutil is gone by the time it is signalled
+            for pt in explore.points_of(F, role="driver", thr="mgr", quals=["_kill_process_tree_with_psutil"])[:8]:
+                out.append(({"rules": [explore.rule(pt, ["sleep", 0.08], hit=0)]}, {"mode": "DS", "fn": pt["qual"]}))
         out += explore.derive_Z(rng, 1 if quick else 3)
         return out
 
